@@ -45,11 +45,11 @@ CODES = {
     "C11": {5, 8, 9, 10},
     "C12": {2, 3, 5, 9},
     "C13": {11},
-    "C14": {1, 5, 6, 9},
+    "C14": {1, 5, 6, 9, 12, 13},
 }
 CODE_NAMES = {1: "result", 2: "in-memory header", 3: "in-memory descriptors", 4: "minimum-ID cache",
               5: "backing bytes", 6: "buffer position", 7: "live object content",
-              8: "header/table region", 9: "backing length", 10: "handle presence", 11: "query answer"}
+              8: "header/table region", 9: "backing length", 10: "handle presence", 11: "query answer", 12: "backend call reply", 13: "backend final contents"}
 
 TRUSTED_BASE = [
     "Coq 8.16.1 kernel and its bytecode VM (vm_compute); no native_compute",
@@ -230,8 +230,21 @@ def load_args(tier, seed, variant=""):
     return ["-seed", str(seed), "-n", "800", "-shards", "48", "-maxcap", "12", "-maxops", "12", "-corpus", "400000"]
 
 
+def backend_args(tier, seed, variant=""):
+    if tier == "quick":
+        return ["-seed", str(seed), "-n", "150", "-shards", "8"]
+    return ["-seed", str(seed), "-n", "4000", "-shards", "32"]
+
+
+def lockstep_args(tier, seed, variant=""):
+    if tier == "quick":
+        return ["-seed", str(seed), "-n", "60", "-shards", "12", "-maxcap", "8", "-maxops", "10"]
+    return ["-seed", str(seed), "-n", "800", "-shards", "48", "-maxcap", "16", "-maxops", "30", "-bigevery", "60"]
+
+
 FAMILIES = {
     "C01": [("hist", hist_args)],
+    "C14": [("backend", backend_args), ("lockstep", lockstep_args)],
     "C03": [("hist", hist_args), ("load", load_args)],
     "C08": [("hist", hist_args), ("load", load_args)],
     "C11": [("hist", hist_args), ("load", load_args)],
